@@ -99,7 +99,7 @@ class MachineSpec:
 def cfgs_odd(tier):
     FULL = 0x3fff
     out = [cfgmod.make(n=1, head=0, manual=1, limit=1, cap=1, payload=1, ctx=2, plans=1, serial=1, history=1, log="on"),
-           cfgmod.make(n=2, head=1, manual=0, limit=8, cap=0, payload=0, ctx=0, plans=1, serial=0, history=0, log="off", inj_state=3, order=1),
+           cfgmod.make(n=2, head=1, manual=0, limit=8, cap=0, payload=0, ctx=0, plans=1, serial=0, history=0, log="off", inj_state=3, order=1, virt=1),
            cfgmod.make(n=65, head=0, manual=1, limit=2, cap=2, payload=5, ctx=0, plans=1, serial=1, history=1, log="verbose"),
            cfgmod.make(n=129, head=1, manual=0, limit=2, cap=3, payload=0, ctx=1, plans=0, serial=1, history=1, log="off"),
            cfgmod.make(n=3, head=1, manual=0, limit=2, cap=2, payload=0, ctx=3, plans=1, serial=0, history=0, log="on", constcb=1, defroot=0x3555, defstate=0x0aaa),
@@ -143,7 +143,7 @@ def analyse(run, spec, c, bins, script, source):
         rc, out, err = corr.run_impl(b, script, wrapper=spec.wrapper, timeout=10 if run.tier == "quick" else 30)
         validated += 1
         if rc != 0:
-            what = "the call does not return: callbacks keep coming (runaway guard of the harness)" if rc == 97 else "timeout" if rc == -9 else "exit status %s" % rc
+            what = "the call does not return: callbacks keep coming (runaway guard of the harness)" if rc == 97 else "memcheck: the run depends on a value that was never written" if rc == 96 else "timeout" if rc == -9 else "exit status %s" % rc
             found_v.append(dict(reason="implementation run failed (%s): %s" % (what, err[-1500:]), script=script,
                                 cfg=cfgmod.name(c), variant=variant, source=source, impl=out[-3000:], model=mout[-3000:]))
             continue
